@@ -121,6 +121,7 @@ SCHED_ASSUME = ["simulators always answer; replies API-compliant except where a 
 PROPERTIES["C01"] = {"run": _sched(_mon("C01")), "assumptions": SCHED_ASSUME}
 PROPERTIES["C02"] = {"run": _sched(_mon("C02")), "assumptions": SCHED_ASSUME + ["the liveness half (every demanded step is executed) is not a theorem yet: monitor + correspondence only"]}
 PROPERTIES["C05"] = {"run": _sched(_mon("C05"), extra=_replay_d7("C05")), "assumptions": SCHED_ASSUME + ["deadlock freedom and termination are not theorems yet: monitor + correspondence only"]}
+PROPERTIES["C07"] = {"run": _sched(_mon("C07")), "assumptions": SCHED_ASSUME + ["the run form of the promise is decided by the taint monitor, not by a theorem"]}
 PROPERTIES["C09"] = {"run": _sched(_mon("C09")), "assumptions": SCHED_ASSUME}
 PROPERTIES["C10"] = {"run": _sched(_mon("C10")), "assumptions": SCHED_ASSUME}
 PROPERTIES["C13"] = {"run": _sched(_mon("C13"), faults=True), "assumptions": SCHED_ASSUME}
